@@ -1,6 +1,7 @@
 package main
 
 import (
+	"io"
 	"math/big"
 	"sync"
 	"sync/atomic"
@@ -38,6 +39,12 @@ type timerRec struct {
 
 type tickToken struct{ id int }
 
+type timerWarmup struct{}
+
+func (timerWarmup) Init() tea.Cmd                         { return tea.Quit }
+func (m timerWarmup) Update(tea.Msg) (tea.Model, tea.Cmd) { return m, nil }
+func (timerWarmup) View() string                          { return "" }
+
 func modelEveryDelay(t time.Time, d time.Duration) time.Duration {
 	// next whole multiple strictly after t (the Spec's next_multiple), by wall clock
 	return t.Truncate(d).Add(d).Sub(t)
@@ -48,6 +55,26 @@ func timerMain(args []string) {
 	em := newEmitter(c.out)
 	defer em.close()
 	r := &rng{s: c.seed}
+	// a Program has run and finished in this process before any of the timer commands below is created (they belong to
+	// no program: what another program did must not matter to them)
+	{
+		p := tea.NewProgram(timerWarmup{}, tea.WithInput(nil), tea.WithOutput(io.Discard), tea.WithoutSignalHandler())
+		_, _ = p.Run()
+	}
+	// a timer command value that was run twice (the second run waits for ever: a timer fires once); commands created
+	// afterwards are not affected
+	for _, kind := range []string{"tick", "every"} {
+		fn := func(t time.Time) tea.Msg { return nil }
+		var stale tea.Cmd
+		if kind == "tick" {
+			stale = tea.Tick(3*time.Millisecond, fn)
+		} else {
+			stale = tea.Every(3*time.Millisecond, fn)
+		}
+		stale()
+		go stale()
+	}
+	time.Sleep(5 * time.Millisecond)
 	durs := []time.Duration{time.Millisecond, 7 * time.Millisecond, 50 * time.Millisecond, 200 * time.Millisecond}
 	phases := 8
 	if c.tier == "thorough" {
@@ -126,7 +153,15 @@ func timerMain(args []string) {
 					}
 					time.Sleep(preRun)
 					run0 := time.Now()
-					msg := cmd()
+					var msg tea.Msg
+					got := make(chan tea.Msg, 1)
+					go func() { got <- cmd() }()
+					select {
+					case msg = <-got:
+					case <-time.After(3*d + 2*time.Second):
+						// the command never delivered: reported as a result that is not the callback's (msg_ok false, calls as counted)
+						msg = nil
+					}
 					run1 := time.Now()
 					ctlTs := <-ctl.C
 					rec := timerRec{Kind: kind, D: int64(d), Lo: absNS(t0), Hi: absNS(t1),
